@@ -46,9 +46,12 @@ SEEDS = {
  'C02-C': ('tests', './tests', 'TestDemoStoreFlagsInOtherMailboxKeepsViewsConverged'),
  'C11-D': ('imap/command', './imap/command', 'TestDemoC11A_'), 'C11-E': ('rfcparser', './rfcparser', 'TestDemoC11B_'),
  'C11-F': ('imap/command', './imap/command', 'TestDemoC11C_'), 'C12-E': ('imap', './imap', 'TestDemoC12D_'), 'C12-F': ('imap', './imap', 'TestDemoC12E_'),
+ 'C18-D': ('tests', './tests', 'TestC18CloseLeavesSelectedState'), 'C18-E': ('connector', './connector', 'TestC18DummyAuthorizeIsExact'),
+ 'C14-C': ('tests', './tests', 'TestC14CreateMakesEveryMissingSuperior'), 'C20-E': ('tests', './tests', 'TestC20RemoteRefusalKeepsBytesInRecovery'),
+ 'C17-D': ('tests', './tests', 'TestC17ConnectorMessageCreatedOverLimitHasNoPartialEffect'),
 }
 # demo files that belong to another package than the main demo (skipped in the confirmation run)
-SKIP = {'C11-D': ['zz_demo_c11a_wire_test.go'], 'C01-D': ['demo_merge_expunge_wire_test.go'], 'C01-E': ['demo_silent_store_wire_test.go'], 'C13-E': ['demo_c_fetch_empty_part_test.go'], 'C17-C': ['demo_d_message_limit_test.go'], 'C01-A': ['c01_uid_range_seq_test.go'], 'C16-A': ['zz_demo_a_wire_test.go'], 'C16-B': ['zz_demo_b_wire_test.go'], 'C05-A': ['c05_mutA_readd_demo_test.go']}
+SKIP = {'C18-E': ['zz_c18_login_exact_test.go'], 'C11-D': ['zz_demo_c11a_wire_test.go'], 'C01-D': ['demo_merge_expunge_wire_test.go'], 'C01-E': ['demo_silent_store_wire_test.go'], 'C13-E': ['demo_c_fetch_empty_part_test.go'], 'C17-C': ['demo_d_message_limit_test.go'], 'C01-A': ['c01_uid_range_seq_test.go'], 'C16-A': ['zz_demo_a_wire_test.go'], 'C16-B': ['zz_demo_b_wire_test.go'], 'C05-A': ['c05_mutA_readd_demo_test.go']}
 
 def sh(cmd, timeout=900, cwd=WT):
     try:
